@@ -189,7 +189,7 @@ CURRENT_OPTIONS = ["images/boot.iso", "images/efiboot.img", "LiveOS/squashfs.img
 LEGACY_OPTIONS = ["images/boot.iso", "x86_64/os/images/boot.iso", "a/os/b/os/images/boot.iso"]
 
 
-def read_section(sym, kinds, n_bare, legacy=False):
+def read_section(sym, kinds, n_bare, legacy=False, n_typed=6):
     """[checksums]: every path gets exactly its own (type, value); bare digests are typed by length or rejected.
     legacy: the section belongs to a version 0.0 tree (only absolute keys are rewritten there; relative ones are kept as they are)"""
     OPTIONS = LEGACY_OPTIONS if legacy else CURRENT_OPTIONS
@@ -200,7 +200,7 @@ def read_section(sym, kinds, n_bare, legacy=False):
     for i, kind in enumerate(kinds):
         if kind == "typed":
             t = sym.str("type%d" % i, 6, minlen=1, alphabet="alnum")
-            v = sym.str("value%d" % i, 6, minlen=1, alphabet="hexlower")
+            v = sym.str("value%d" % i, n_typed, minlen=1, alphabet="hexlower")          # n_typed: 'type:value' texts as long as the bare digests (32 / 40 / 64)
             p.set("checksums", OPTIONS[i], t + ":" + v)
             want[OPTIONS[i]] = (False, t, v)
         else:
@@ -293,6 +293,8 @@ def jobs(tier, seed):
         for c in itertools.product(["typed", "bare"], repeat=n):
             if big or n < 3 or (sum(1 for x in c if x == "bare") + seed) % 2 == 1:
                 out.append({"harness": "read_section", "params": {"kinds": list(c), "n_bare": 66 if (big or n == 1) else 42}})
+    out.append({"harness": "read_section", "params": {"kinds": ["typed"], "n_bare": 66, "n_typed": 62}})
+    out.append({"harness": "read_section", "params": {"kinds": ["typed", "bare"], "n_bare": 42, "n_typed": 38}})
     for picks in ([0, 1, 2], [3, 4, 5], [6, 0, 4], [1, 5, 6, 2]):
         out.append({"harness": "written_read_back", "params": {"picks": picks}})
     for c in (["typed", "typed", "typed"], ["bare", "typed", "bare"], ["typed", "bare"]):
@@ -315,7 +317,7 @@ META = {
         "the expected key comes from an independent reference normalisation in the harness",
         "Checksums.add computing the digest itself (root_dir given): concrete component names, the same shapes of redundant components, the file of symbolic size "
         "<= 1 MiB + 2 lives at the lexically normalised path below the root and nowhere else (so 'x/../' where x does not exist must still resolve)",
-        "[checksums] reader: 1-3 entries under concrete option names; 'type:value' with alphanumeric type / hex value, or a bare hex digest of symbolic length 0..66 (quick: 0..42 for 2-3 entries)",
+        "[checksums] reader: 1-3 entries under concrete option names; 'type:value' with alphanumeric type / hex value, or a bare hex digest of symbolic length 0..66 (quick: 0..42 for 2-3 entries); two jobs with 'type:value' texts of up to 69 / 45 characters (so that their total length reaches 32 / 40 / 64)",
         "written_read_back: 3-4 concrete paths (redundant components, names beginning with one or two dots) with symbolic type and value, added to a valid tree, written and read back",
         "[checksums] of a version 0.0 tree: relative keys with and without '/os/' components side by side - each keeps its own checksum (absolute legacy keys are exercised by the shipped fixtures, C05)",
     ],
